@@ -173,10 +173,14 @@ class SegwitChecker(SolutionChecker):
                 raise ScriptError("witness unexpected", errno.WITNESS_UNEXPECTED)
         else:
             witness_program = puzzle_script[2:]
-            if len(solution_stack) > 0:
-                err = (
-                    errno.WITNESS_MALLEATED_P2SH if is_p2sh else errno.WITNESS_MALLEATED
-                )
+            if is_p2sh:
+                # the script sig must be exactly the push of the witness program
+                expected_script = self.ScriptTools.compile_push_data_list([puzzle_script])  # type: ignore[attr-defined]
+                err = errno.WITNESS_MALLEATED_P2SH
+            else:
+                expected_script = b""
+                err = errno.WITNESS_MALLEATED
+            if tx_context.solution_script != expected_script:
                 raise ScriptError("script sig is not blank on segwit input", err)
 
             if witness_version == 0:
